@@ -4,8 +4,8 @@ CONSTANTS
   AllSchedules = FALSE
   PermuteModules = FALSE
   FieldSets <- TFieldSets
-  VftSets <- QVftSets
-  EnumSets <- QEnumSets
+  VftSets <- T1VftSets
+  EnumSets <- T1EnumSets
   Ptrs = {4, 8}
   Pairs = FALSE
 INVARIANTS Replay
